@@ -159,6 +159,37 @@ func MetaSweep() (bodies [][]byte, evs [][]refsmf.Event) {
 // (explicit status and running status alternate in blocks), n beyond any
 // plausible block size of a decoder.
 func ManyEvents() (bodies [][]byte, evs [][]refsmf.Event) {
+	// two-byte messages in front of 70000 three-byte ones (0, 1, 2 of them: the
+	// sizes of the messages read so far then pass every multiple of a power
+	// of two exactly, for one of the three), and two-byte messages only
+	for lead := 0; lead <= 3; lead++ {
+		var body []byte
+		var ev []refsmf.Event
+		n := 70000
+		for i := 0; i < n; i++ {
+			two := i < lead || lead == 3
+			st := byte(0x90)
+			if two {
+				st = 0xC0
+			}
+			k, v := byte(i%128), byte((i/128)%128)
+			body = append(body, byte(i%2))
+			if i == 0 || i == lead || i%7 == 3 {
+				body = append(body, st)
+			}
+			if two {
+				body = append(body, k)
+				ev = append(ev, refsmf.Event{Delta: uint32(i % 2), Msg: []byte{st, k}})
+			} else {
+				body = append(body, k, v)
+				ev = append(ev, refsmf.Event{Delta: uint32(i % 2), Msg: []byte{st, k, v}})
+			}
+		}
+		body = append(body, 0x00, 0xFF, 0x2F, 0x00)
+		ev = append(ev, refsmf.Event{Delta: 0, Msg: refsmf.EOT})
+		bodies = append(bodies, body)
+		evs = append(evs, ev)
+	}
 	for _, n := range []int{5000, 11000, 23000, 70000} {
 		var body []byte
 		var ev []refsmf.Event
